@@ -31,7 +31,7 @@ RULE = ("sweep: 256 message types x message lengths {0,1,2,3,8,23,24} x destinat
         "parent side, 0o100, 0o4444, invalid digit, 5 digits, 6 digits} x origin {valid, invalid} x role/level (10 UUTs: "
         "routing-only, network node at levels 0..4, unjoined mesh node, mesh master) - quick: a seeded 4 % sample, thorough: "
         "complete; plus random byte strings of 1..32 bytes, sequences of 2-6 frames (fragment types included), and for the "
-        "master a run of MESH_ADDR_REQUESTs that exhausts one parent's children (the last ones refused) followed by unusable frames, and truncated/oversized MESH_ADDR_LOOKUP / MESH_ID_LOOKUP / MESH_ADDR_RELEASE / MESH_ADDR_REQUEST bodies with known "
+        "a third of the nodes re-addressed after construction, a third with multicast_relay on, a third next to a neighbour whose radio acknowledges while its application never runs (the master is then asked for an address through a node below that neighbour); for the master a run of MESH_ADDR_REQUESTs that exhausts one parent's children (the last ones refused) followed by unusable frames, and truncated/oversized MESH_ADDR_LOOKUP / MESH_ID_LOOKUP / MESH_ADDR_RELEASE / MESH_ADDR_REQUEST bodies with known "
         "and unknown ids; the validity predicate is evaluated for all 65 536 values (direct evaluation). Non-trivial: the frame "
         "reached the UUT's RX FIFO; distinct = distinct (role, frames, outcome)")
 ASSUMPTIONS = ["documented validity predicate: 0, 0o100/0o10/0o1000, or one to four octal digits each in 1..5",
@@ -134,7 +134,7 @@ def make(i, base_seed, tier):
             else:
                 frames.append(_frame(rng, addr, rng.choice([0, 65, 130, 195, 196, 197, 198, rng.getrandbits(8)]), rng.choice(LENS),
                                      rng.choice(DST_CLASSES), rng.random() < 0.4))
-        return {"seed": seed, "kind": "seq", "role": list(role), "frames": frames, "batch": 1}
+        return _extras({"seed": seed, "kind": "seq", "role": list(role), "frames": frames, "batch": 1}, seed, role)
     else:
         # master: mesh system messages with hostile bodies
         ids = [rng.randint(1, 255) for _ in range(2)]
@@ -152,7 +152,33 @@ def make(i, base_seed, tier):
             if typ == 198 and rng.random() < 0.5:
                 body = bytes([rng.choice([1, 3, 0o23 & 0xFF]), 0])
             frames.append({"hdr": [frm, 0, rng.getrandbits(16), typ, rng.choice(ids + [0])], "msg": body.hex(), "pipe": rng.randrange(6), "ack": rng.random() < 0.3})
-    return {"seed": seed, "kind": "seq", "role": list(role), "frames": frames, "batch": rng.choice([1, 1, 2, 3])}
+    scn = {"seed": seed, "kind": "seq", "role": list(role), "frames": frames, "batch": rng.choice([1, 1, 2, 3])}
+    return _extras(scn, seed, role)
+
+
+def _extras(scn, seed, role):
+    """history and neighbourhood of the node under test"""
+    xr = stream(seed, "ext")
+    if role[0] in ("net", "router") and xr.random() < 0.3:
+        # constructed with another address (any level) and re-addressed before the frames arrive
+        lv = xr.randint(0, 4)
+        scn["first_addr"] = sum(xr.randint(1, 5) << (3 * d) for d in range(lv))
+    if role[0] in ("net", "mesh", "master") and xr.random() < 0.3:
+        scn["relay"] = True           # multicast_relay switched on
+    if xr.random() < 0.35:
+        # a neighbour whose radio acknowledges but whose application never runs (a child, for nodes below the master sometimes the
+        # parent): transmissions toward it succeed on the link and nothing ever comes back
+        addr = 0o4444 if role[0] == "mesh" else (0 if role[0] == "master" else role[1])
+        lvn = netref.level(addr) if addr != 0o4444 else 4
+        if lvn < 4:
+            scn["listener"] = addr | (xr.randint(1, 5) << (3 * lvn))
+        if addr not in (0, 0o4444) and xr.random() < 0.4:
+            scn["listener"] = netref.parent(addr)
+        if "listener" in scn and role[0] == "master" and xr.random() < 0.6:
+            # ... and the master is asked for an address through a node below that neighbour (its reply is routed)
+            via = scn["listener"] | (xr.randint(1, 5) << 3)
+            scn["frames"].insert(xr.randint(0, len(scn["frames"])), {"hdr": [via, 0, xr.getrandbits(16), 195, xr.randint(1, 255)], "msg": "", "pipe": scn["listener"] & 7, "ack": False})
+    return scn
 
 
 def run(scn):
@@ -184,12 +210,25 @@ def _run(scn, w, res):
     sim = w.sim
     cls, arg = scn["role"]
     ru = w.radio("U")
-    uut = CLASSES[cls](*w.bus(ru), arg)
+    if scn.get("first_addr") is not None and cls in ("net", "router"):
+        uut = CLASSES[cls](*w.bus(ru), scn["first_addr"])
+        uut.node_address = arg
+        sim.count("readdressed")
+    else:
+        uut = CLASSES[cls](*w.bus(ru), arg)
+    if scn.get("relay") and hasattr(uut, "multicast_relay"):
+        uut.multicast_relay = True
+    if scn.get("listener") is not None:
+        from circuitpython_nrf24l01.rf24_network import RF24Network as _Net
+        _Net(*w.bus(w.radio("L")), scn["listener"])      # acknowledging neighbour; its application never runs
+        sim.count("acknowledging_neighbour")
     addr = uut.node_address
     inj = Injector(w, "INJ", channel=ru.r[5], rate=1, aw=5, crc=2, esb=True, dpl=True)
     arc = ru.r[4] & 0xF
     ard = ((ru.r[4] >> 4) + 1) * 250 * US
     per_frame = 2 * (130 * US + (1 + arc) * (ard + 500 * US) + uut.tx_timeout * MS * 1.05) + 12 * MS
+    if scn.get("listener") is not None:
+        per_frame += uut.route_timeout * MS * 1.05      # a routed reply accepted by the neighbour is followed by a wait for its NETWORK_ACK
     got_any = 0
     outcomes = []
     batch = scn.get("batch", 1)
@@ -231,6 +270,14 @@ def _run(scn, w, res):
             return
         dt = sim.now - t0
         sent = [t for t in w.air.trace[a0:] if t["src"] == "U" and not t["ack"]]
+        # ---- whatever the node transmits in reaction to these frames stems from them (forwarded frame, NETWORK_ACK, poll or
+        # mesh reply all keep the frame id): nothing left over from an earlier update() goes out
+        ids = {(d[4] | (d[5] << 8)) for (_, d) in pend if len(d) >= 8}
+        for t in sent:
+            if len(t["data"]) >= 8 and (t["data"][4] | (t["data"][5] << 8)) not in ids:
+                res.add("dropped", {"kind": "stale_frame_transmitted", "role": cls},
+                        "%s(%o) transmitted frame %s (id %d) in reaction to frame(s) with ids %r" % (cls, addr, t["data"][:10].hex(), t["data"][4] | (t["data"][5] << 8), sorted(ids)))
+                break
         queued = len(uut.queue) - q0
         outcomes.append((queued, len(sent) > 0))
         bound = max(1, len(pend)) * 5 * per_frame + 50 * MS
